@@ -214,6 +214,15 @@ class PyDefCompiler:
         """
         return dedent(template)
 
+    def generate_definition(self, obj: Union[TypeAlias, SDF, MDF]) -> str:
+        """A definition of the struct or message section (see Parser.emission_groups)"""
+        if isinstance(obj, TypeAlias):
+            return self.generate_type_alias(obj) + "\n"
+        elif isinstance(obj, MDF):
+            return self.generate_msg_def(obj) + "\n\n"
+        else:
+            return self.generate_struct(obj) + "\n\n"
+
     def generate_docstr(self) -> str:
         s = f"""\"\"\"This message def file was auto-generated by pyrtma.compile version {__version__}\"\"\"\n"""
         return s
@@ -265,8 +274,10 @@ class PyDefCompiler:
                 f.write(self.generate_string_constant(obj))
             f.write("\n")
 
+            early_aliases, struct_section, msg_section = self.parser.emission_groups()
+
             f.write("# Type Aliases\n")
-            for obj in self.parser.aliases.values():
+            for obj in early_aliases:
                 f.write(self.generate_type_alias(obj))
             f.write("\n")
 
@@ -286,14 +297,12 @@ class PyDefCompiler:
             f.write("\n\n")
 
             f.write("# Struct Definitions\n")
-            for obj in self.parser.struct_defs.values():
-                f.write(self.generate_struct(obj))
-                f.write("\n\n")
+            for obj in struct_section:
+                f.write(self.generate_definition(obj))
 
             f.write("# Message Definitions\n")
-            for obj in self.parser.message_defs.values():
-                f.write(self.generate_msg_def(obj))
-                f.write("\n\n")
+            for obj in msg_section:
+                f.write(self.generate_definition(obj))
 
             f.write("# User Context\n")
             f.write(self.generate_context())
